@@ -2247,7 +2247,9 @@ class Workflow(Trellis):
         sql = (
             "SELECT nglob.regex FROM nglob JOIN node ON node.i = nglob.node WHERE NOT node.detached"
         )
-        return any(re.compile(regex).fullmatch(path) for (regex,) in self.db.execute(sql))
+        return any(
+            re.compile(regex, re.DOTALL).fullmatch(path) for (regex,) in self.db.execute(sql)
+        )
 
     def register_nglob(self, step: Step, ng: NamedGlob) -> None:
         """Register a glob pattern used by a step and validate its matches.
@@ -2376,7 +2378,7 @@ class Workflow(Trellis):
         )
         for glob_step_label, pattern, regex in self.db.execute(sql):
             for path in sorted(product_paths):
-                if re.compile(regex).fullmatch(path):
+                if re.compile(regex, re.DOTALL).fullmatch(path):
                     raise GraphError(
                         _glob_product_message(pattern, glob_step_label, path, step_label)
                     )
